@@ -301,8 +301,15 @@ def run(chk):
 
 def _run(chk, wd, proved):
     import c18_seam as S
+    _orig_violation = chk.violation
+
+    def _capped(obj, nofail=False, name=None):      # a broken tree can fail on every case: keep the first 30 replays
+        if len(chk.violations) < 30:
+            return _orig_violation(obj, nofail=nofail, name=name)
+    chk.violation = _capped
     cov = chk.coverage
     groups, gmeta = [], []
+    batch_no = [0]
     distinct = set()
     n_cfg = 0
     n_child = 0
@@ -351,30 +358,16 @@ def _run(chk, wd, proved):
                     setuid_raise_hits += 1
         n_child += len(paths)
         # split big groups so that one Coq file stays small
+        if sum(len(g[4]) for g in gmeta) > 150000:
+            flush_child(chk, wd, groups, gmeta, 'child%d' % batch_no[0])
+            batch_no[0] += 1
+            del groups[:]
+            del gmeta[:]
         for k0 in range(0, len(paths), 250):
             groups.append('(%s, %s, %s, %s)' % (cfg_term(cfg), world_term(world), exec_term or 'Setpgrp',
                                                 coq_list(paths[k0:k0 + 250])))
             gmeta.append((label, cfg, world, er, paths[k0:k0 + 250], pmeta[k0:k0 + 250]))
-    bad, errs = vlib.coq_compare(IMPORTS, 'child_group', 'check_group', groups, wd, tag='child', shard=4,
-                                 preamble='Open Scope Z_scope.')
-    for e in errs:
-        chk.violation({'kind': 'model evaluation failed', 'part': 'child', 'error': e}, nofail=True)
-    for gi in bad[:3]:
-        label, cfg, world, er, paths, pmeta = gmeta[gi]
-        flat = ['(%s, %s, %s, %s, %s, %s)' % (
-            blit(er), cfg_term(cfg), world_term(world),
-            coq_list(['(%s, %s)' % (site_term(s_), kind_term(d_)) for s_, d_ in tr]), log_term(lg, cfg), ending_term(en))
-            for (tr, lg, en) in pmeta]
-        bad2, errs2 = vlib.coq_compare(IMPORTS, 'child_case', 'check_child', flat, wd, tag='childflat%d' % gi)
-        for i in (bad2[:3] or [0]):
-            trail, log, ending = pmeta[i]
-            chk.violation({'kind': 'model and implementation disagree', 'part': 'child', 'grid': label, 'cfg': cfg,
-                           'world': _w(world), 'oracle': trail, 'log': _log(log), 'ending': ending, 'exit_returns': er,
-                           'coq_case': flat[i][:3000],
-                           'explanation': 'the Coq model of _spawn_as_child (about which the C18 theorems are proved) '
-                                          'produces a different call log or ending than the real code for this oracle; '
-                                          "the implementation's own trace satisfies the C18 monitor"},
-                          nofail=True)
+    flush_child(chk, wd, groups, gmeta, 'child%d' % batch_no[0])
     # ---- drop_privileges by itself
     dcases, dmeta = [], []
     for wname, (uid, wpart) in sorted(USERS.items()):
@@ -454,9 +447,35 @@ def _run(chk, wd, proved):
                    'contains at least the descriptor set-up'
                    % (n_cfg, n_child, len(dcases), len(pcases)))
     cov['samples'] = [{'cfg': g[1], 'oracle': g[5][j][0], 'log': _log(g[5][j][1]), 'ending': g[5][j][2]}
-                      for g, j in ((gmeta[0], 0), (gmeta[len(gmeta) // 2], 3), (gmeta[-1], 7)) if j < len(g[5])]
+                      for g, j in ((gmeta[0], 0), (gmeta[len(gmeta) // 2], 3), (gmeta[-1], 7)) if j < len(g[5])] if gmeta else []
     if smoke is not None:
         cov['notes'].append('real fork smoke test: %s' % smoke)
+
+
+def flush_child(chk, wd, groups, gmeta, tag):
+    """Let Coq compare one batch of configuration groups; narrow a bad group down to single cases."""
+    if not groups:
+        return
+    bad, errs = vlib.coq_compare(IMPORTS, 'child_group', 'check_group', groups, wd, tag=tag, shard=4,
+                                 preamble='Open Scope Z_scope.')
+    for e in errs:
+        chk.violation({'kind': 'model evaluation failed', 'part': 'child', 'error': e}, nofail=True)
+    for gi in bad[:3]:
+        label, cfg, world, er, paths, pmeta = gmeta[gi]
+        flat = ['(%s, %s, %s, %s, %s, %s)' % (
+            blit(er), cfg_term(cfg), world_term(world),
+            coq_list(['(%s, %s)' % (site_term(s_), kind_term(d_)) for s_, d_ in tr]), log_term(lg, cfg), ending_term(en))
+            for (tr, lg, en) in pmeta]
+        bad2, errs2 = vlib.coq_compare(IMPORTS, 'child_case', 'check_child', flat, wd, tag='%sflat%d' % (tag, gi))
+        for i in (bad2[:3] or [0]):
+            trail, log, ending = pmeta[i]
+            chk.violation({'kind': 'model and implementation disagree', 'part': 'child', 'grid': label, 'cfg': cfg,
+                           'world': _w(world), 'oracle': trail, 'log': _log(log), 'ending': ending, 'exit_returns': er,
+                           'coq_case': flat[i][:3000],
+                           'explanation': 'the Coq model of _spawn_as_child (about which the C18 theorems are proved) '
+                                          'produces a different call log or ending than the real code for this oracle; '
+                                          "the implementation's own trace satisfies the C18 monitor"},
+                          nofail=True)
 
 
 def _w(world):
@@ -490,6 +509,13 @@ def parse_env_cases(chk, wd):
                                        env_items(sorted(got.items()))))
         meta.append((senv, penv, got))
         chk.dist('parse_env')
+        # the property, judged on the implementation: [program:x] overrides [supervisord]
+        want = dict(senv or {})
+        want.update(penv or {})
+        if dict(got) != want:
+            chk.violation({'kind': 'C18 fails on the implementation', 'what': 'configured environment of the program is not '
+                           '[supervisord] environment overlaid with [program:x] environment', 'supervisord': senv,
+                           'program': penv, 'got': dict(got), 'config': text})
     return cases, meta
 
 
@@ -529,6 +555,8 @@ def fork_smoke(chk, wd):
                 return lambda *a, **k: None
         options.logger = L()
         options.serverurl = 'unix:///smoke.sock'
+        options.loglevel = 20
+        options.strip_ansi = False
         params = dict(
             name='smoke', uid=None, command='%s %s' % (vlib.PY, script), directory=d, umask=0o37,
             priority=999, autostart=True, autorestart=False, startsecs=0, startretries=0,
@@ -546,7 +574,8 @@ def fork_smoke(chk, wd):
                 name = 'smokegroup'
         proc.group = G()
         extra = os.open(os.devnull, os.O_RDONLY)        # a descriptor the child must not inherit (< minfds)
-        extra = os.dup2(extra, 20) if hasattr(os, 'dup2') else extra
+        os.dup2(extra, 20)
+        os.close(extra)
         pid = proc.spawn()
         if not pid:
             return 'skipped: spawn failed (%r)' % (proc.spawnerr,)
@@ -606,7 +635,7 @@ def fork_smoke(chk, wd):
             return 'FAILED ' + '; '.join(problems)
         chk.dist('fork_smoke')
         return 'ok: pgid=pid, fds 0-2 are pipes, nothing open in 3..63, cwd, umask 037 and environment as promised'
-    except (OSError, ImportError, ValueError) as e:
+    except (OSError, ImportError, ValueError, TypeError, AttributeError) as e:
         return 'skipped: %r' % (e,)
 
 
